@@ -268,7 +268,7 @@ func c04Table(c *Ctx, prog *load.Program) {
 	key := "table@" + prog.Config.Name
 	builder, inPlace := findTableBuilder(prog)
 	if builder == nil {
-		c.R.Unknown("C04-6", key, "", "no routine that builds a projectivePointMultTable from a point was found (neither newProjectivePointMultTable nor a method of the table type taking a *Point)")
+		c.R.Unknown("C04-6", key, "", "no routine that builds a projectivePointMultTable from a point was found (neither newProjectivePointMultTable, nor exactly one function / method that fills a table from a *Point or returns one)")
 		return
 	}
 	r := RunFn(prog, set, builder.String(), &RunOpts{Args: namedFor(builder, map[string]string{"*Point": "p"})})
@@ -311,21 +311,28 @@ func findTableBuilder(prog *load.Program) (fn *ssa.Function, inPlace bool) {
 	if f := absint.FindFunc(prog.SSA, models.Mod+".newProjectivePointMultTable"); f != nil {
 		return f, false
 	}
+	// any name and either calling convention: a method of the table type or a plain function taking the table first
+	// (filled in place), or a function of one point that returns the table
+	tblT := models.Mod + ".projectivePointMultTable"
 	var cands []*ssa.Function
+	var place []bool
 	for _, f := range ModuleFuncs(prog) {
-		if f.Signature == nil || f.Signature.Recv() == nil || f.Parent() != nil || f.Signature.Params().Len() != 1 {
+		if f.Signature == nil || f.Parent() != nil || f.Synthetic != "" || f.Pkg == nil || f.Pkg.Pkg.Path() != models.Mod || f.Signature.Results().Len() > 1 {
 			continue
 		}
-		if recvNamed(f) != models.Mod+".projectivePointMultTable" || !isNamedPtr(f.Signature.Params().At(0).Type(), models.PointType) {
-			continue
+		ps := f.Params
+		switch {
+		case len(ps) == 2 && isNamedPtr(ps[0].Type(), tblT) && isNamedPtr(ps[1].Type(), models.PointType):
+			cands, place = append(cands, f), append(place, true)
+		case len(ps) == 1 && f.Signature.Recv() == nil && isNamedPtr(ps[0].Type(), models.PointType) && f.Signature.Results().Len() == 1:
+			rt := f.Signature.Results().At(0).Type()
+			if nt, ok := rt.(*types.Named); ok && nt.Obj().Pkg() != nil && nt.Obj().Pkg().Path()+"."+nt.Obj().Name() == tblT {
+				cands, place = append(cands, f), append(place, false)
+			}
 		}
-		if f.Signature.Results().Len() > 1 {
-			continue
-		}
-		cands = append(cands, f)
 	}
 	if len(cands) == 1 {
-		return cands[0], true
+		return cands[0], place[0]
 	}
 	return nil, false
 }
